@@ -27,4 +27,132 @@ theorem caseCond_eval (lg : Bool) (sel : Expr) (cv : CaseVal) (σ : Store) :
       simp [caseCond, matchVal, eval, evalBin, b2i_ne_zero, litE_eval, b2i]
     all_goals (try (split <;> split <;> simp_all))
 
+theorem caseConds_eval (lg : Bool) (sel : Expr) (vals : List CaseVal) (σ : Store) :
+    (eval (caseConds lg sel vals) σ ≠ 0) ↔ vals.any (matchVal lg (eval sel σ)) = true := by
+  induction vals with
+  | nil => simp [caseConds, eval]
+  | cons v vs ih =>
+    cases vs with
+    | nil => simpa [caseConds] using caseCond_eval lg sel v σ
+    | cons w ws =>
+      have h1 := caseCond_eval lg sel v σ
+      simp only [caseConds, eval, evalBin, List.any_cons] at ih ⊢
+      rw [b2i_ne_zero]
+      simp only [Bool.or_eq_true, bne_iff_ne, ne_eq] at h1 ih ⊢
+      rw [h1, ih]
+
+/-- a case chain in which no case matched leaves the store unchanged -/
+theorem run_chain_nomatch (env : Env) (s : Src) :
+    wf s true = true → ∀ lg v σ, (run env s lg v σ).1 = false → (run env s lg v σ).2 = σ := by
+  induction s with
+  | caseItem vals body rest _ ihr =>
+    intro h lg v σ
+    simp only [wf, Bool.and_eq_true] at h
+    simp only [run]
+    split
+    · simp
+    · exact ihr h.2 lg v σ
+  | caseDefault body rest _ ihr =>
+    intro h lg v σ
+    simp only [run]
+    split <;> simp_all
+  | caseEnd => intro _ lg v σ _; rfl
+  | _ => intro h; simp [wf] at h
+
+/-- the leaf obligation of the whole-program theorem: a lowered WHERE behaves as the
+standard semantics (with the scratch-variable convention of `run`) -/
+def WhereLeaf (env : Env) : Prop :=
+  ∀ tag wv cl s, lowerWhere env wv cl = some s → whereElemental env wv cl = true →
+    ∀ σ, execSrc env s σ = execSrc env (.whereC tag wv cl) σ
+
+theorem low_sound (env : Env) (hw : WhereLeaf env) (s : Src) :
+    (wf s false = true → good env s = true → ∀ σ, execSrc env (lower env s) σ = execSrc env s σ) ∧
+    (wf s true = true → good env s = true → ∀ lg sel d σ,
+      (run env (low env s lg sel d) false 0 σ).2 =
+        if (run env s lg (eval sel σ) σ).1 then (run env s lg (eval sel σ) σ).2
+        else (run env d false 0 σ).2) := by
+  induction s with
+  | skip => exact ⟨fun _ _ _ => rfl, fun h => by simp [wf] at h⟩
+  | assign x e => exact ⟨fun _ _ _ => rfl, fun h => by simp [wf] at h⟩
+  | store1 a i e => exact ⟨fun _ _ _ => rfl, fun h => by simp [wf] at h⟩
+  | store2 a i j e => exact ⟨fun _ _ _ => rfl, fun h => by simp [wf] at h⟩
+  | arrAssign t a sc rhs => exact ⟨fun _ _ _ => rfl, fun h => by simp [wf] at h⟩
+  | codeBlock s _ => exact ⟨fun _ _ _ => rfl, fun h => by simp [wf] at h⟩
+  | seq a b iha ihb =>
+    refine ⟨fun h g σ => ?_, fun h => by simp [wf] at h⟩
+    simp only [wf, Bool.and_eq_true, Bool.not_eq_true'] at h
+    simp only [good, Bool.and_eq_true] at g
+    have ha := iha.1 h.1.2 g.1
+    have hb := ihb.1 h.2 g.2
+    simp only [execSrc, lower] at ha hb ⊢
+    simp only [low, run, ha, hb]
+  | ifc c t f iht ihf =>
+    refine ⟨fun h g σ => ?_, fun h => by simp [wf] at h⟩
+    simp only [wf, Bool.and_eq_true, Bool.not_eq_true'] at h
+    simp only [good, Bool.and_eq_true] at g
+    have ha := iht.1 h.1.2 g.1
+    have hb := ihf.1 h.2 g.2
+    simp only [execSrc, lower] at ha hb ⊢
+    simp only [low, run, ha, hb]
+  | doc v lo hi st b ih =>
+    refine ⟨fun h g σ => ?_, fun h => by simp [wf] at h⟩
+    simp only [wf, Bool.and_eq_true, Bool.not_eq_true'] at h
+    simp only [good] at g
+    have hb := ih.1 h.2 g
+    simp only [execSrc, lower] at hb ⊢
+    simp only [low, run]
+    have hf : (fun τ => (run env (low env b false (.lit 0) .skip) false 0 τ).2) =
+        (fun τ => (run env b false 0 τ).2) := funext hb
+    rw [hf]
+    cases st <;> rfl
+  | selectCase lg sel cs ih =>
+    refine ⟨fun h g σ => ?_, fun h => by simp [wf] at h⟩
+    simp only [wf, Bool.and_eq_true, Bool.not_eq_true'] at h
+    simp only [good] at g
+    have hc := ih.2 h.2 g lg sel .skip σ
+    simp only [execSrc, lower, low, run] at hc ⊢
+    rw [hc]
+    split
+    · rfl
+    · rename_i hn
+      exact (run_chain_nomatch env cs h.2 lg _ σ (by simpa using hn)).symm
+  | caseItem vals body rest ihb ihr =>
+    refine ⟨fun h => by simp [wf] at h, fun h g lg sel d σ => ?_⟩
+    simp only [wf, Bool.and_eq_true] at h
+    simp only [good, Bool.and_eq_true] at g
+    have hb := ihb.1 h.1.2 g.1 σ
+    have hr := ihr.2 h.2 g.2 lg sel d σ
+    simp only [execSrc, lower] at hb
+    simp only [low, run]
+    by_cases hm : vals.any (matchVal lg (eval sel σ)) = true
+    · have hc := (caseConds_eval lg sel vals σ).2 hm
+      simp only [ne_eq] at hc
+      simp [hm, hc, hb]
+    · have hc : eval (caseConds lg sel vals) σ = 0 :=
+        Decidable.byContradiction fun h' => hm ((caseConds_eval lg sel vals σ).1 h')
+      simp [hm, hc, hr]
+  | caseDefault body rest ihb ihr =>
+    refine ⟨fun h => by simp [wf] at h, fun h g lg sel d σ => ?_⟩
+    simp only [wf, Bool.and_eq_true] at h
+    simp only [good, Bool.and_eq_true] at g
+    have hb := ihb.1 h.1.2 g.1 σ
+    have hr := ihr.2 h.2 g.2 lg sel (low env body false (.lit 0) .skip) σ
+    simp only [execSrc, lower] at hb
+    simp only [low, run]
+    rw [hr, hb]
+    split <;> simp
+  | caseEnd =>
+    refine ⟨fun h => by simp [wf] at h, fun _ _ lg sel d σ => ?_⟩
+    simp [low, run]
+  | whereC tag wv cl =>
+    refine ⟨fun _ g σ => ?_, fun h => by simp [wf] at h⟩
+    simp only [good, Bool.or_eq_true, Option.isNone_iff_eq_none] at g
+    simp only [lower, low]
+    cases hl : lowerWhere env wv cl with
+    | none => rfl
+    | some s =>
+      rcases g with g | g
+      · rw [hl] at g; cases g
+      · exact hw tag wv cl s hl g σ
+
 end C01
